@@ -64,6 +64,8 @@ struct Run
   int templog = 0;
   int lazycomp = 0;   // the wrapped component does not look up the runtime itself (a hand-written component need not)
   int idquery = 0;    // ask for the client identifiers after this many registrations (0 = only at the end)
+  int setuporder = 0; // 1: handlers are bound right after each port/client is obtained (instead of registering everything first)
+  int reentryfc = 0;  // the user's log sink calls the shell's FinalConstruct when it receives its k-th message
   int refetch = 0;    // the user does not keep the port it got from the accessor but asks the accessor again for every call
   int hquery = 0;     // the user's out-event handlers of the multi-client port ask the shell for the client identifiers
   int temploc = 0;    // 'create' only: the prototype locator handed to the constructor is destroyed right after construction
@@ -123,6 +125,7 @@ static const int CTR_FCSTATE = 13;     // 0 = FinalConstruct not called yet, 1 =
 static const int CTR_LOGCOUNT = 14;    // messages the user's log sink has received
 static const int CTR_GEN_BASE = 200;   // + client: how often that client's out-event handlers have been re-bound
 static void set_ctr(int c, long v) { sim_ctr_add(c, v - sim_ctr_get(c)); }
+extern dzn::meta parent_meta;   // the parent every FinalConstruct(parent) call of the harness passes
 static std::string pct_encode(const std::string& in)
 {
   static const char* hex = "0123456789ABCDEF";
@@ -279,6 +282,28 @@ __attribute__((noinline)) void scrub_stack()
 void log_sink(char level, const std::string& msg)
 {
   rec(std::string("log lvl=") + level + " msg=" + sanitize(msg));
+  if (g_run.reentryfc > 0 && !sim_ctr_get(CTR_QUIET) && sim_ctr_add(CTR_LOGCOUNT, 1) == g_run.reentryfc && g_shell && sim_ctr_get(CTR_FCSTATE) == 0)
+  {
+    // fault kind "user callback re-enters the shell", second flavour: the sink decides that set-up is complete and calls
+    // FinalConstruct itself (everything obtained so far is bound in these worlds, so it may well succeed)
+    try
+    {
+      set_ctr(CTR_FCSTATE, 1);
+      g_model.shell.final_construct(g_shell, &parent_meta, false);
+      set_ctr(CTR_FCSTATE, 2);
+      rec("reentrant_fc result=ok");
+    }
+    catch (const dzn::binding_error& e)
+    {
+      set_ctr(CTR_FCSTATE, 0);
+      rec("reentrant_fc result=throw exc=binding_error what=" + sanitize(e.what()));
+    }
+    catch (const std::exception& e)
+    {
+      set_ctr(CTR_FCSTATE, 0);
+      rec("reentrant_fc result=throw exc=other what=" + sanitize(e.what()));
+    }
+  }
   if (g_run.reentry > 0 && !sim_ctr_get(CTR_QUIET) && sim_ctr_add(CTR_LOGCOUNT, 1) == g_run.reentry && g_shell && g_model.mc_port >= 0)
   {
     // fault kind "user callback re-enters the shell": the sink is user code and may use the shell's public interface -
@@ -783,6 +808,8 @@ static void companion_probe()
   rec("companion_ctor result=" + verdict);
 }
 
+dzn::meta parent_meta{"parent", "Parent", nullptr, {}, {}, {}};
+
 static void death_callback() { sim_flush(99); }
 
 static void execute_run(int out_fd)
@@ -872,8 +899,52 @@ static void execute_run(int out_fd)
     }
     rec("comp_name value=" + sanitize(g_model.shell.comp_name(g_comp)));
 
+    auto bind_object = [&](size_t pi, size_t k) {
+      PortDesc& pd = g_model.ports[pi];
+      for (size_t ei = 0; ei < g_model.events.size(); ++ei)
+      {
+        EventDesc& e = g_model.events[ei];
+        if (e.port != static_cast<int>(pi) || !outer_handles(e)) continue;
+        e.bind(g_outer_obj[pi][k], EvCtx{static_cast<int>(ei), 0, pd.sem == 2 ? static_cast<int>(k) : -1});
+      }
+    };
+    if (R.setuporder)
+    {
+      // another legal order of the user's set-up steps: every port is bound as soon as it has been obtained - the plain
+      // ports first, then client by client: register, bind, next client
+      for (size_t pi = 0; pi < g_model.ports.size(); ++pi)
+      {
+        PortDesc& pd = g_model.ports[pi];
+        if (pd.sem == 3 || pd.sem == 2) continue;
+        g_outer_obj[pi].push_back(pd.outer(g_shell, ""));
+        rec("port_identity port=" + std::to_string(pi) + " same=" + (g_outer_obj[pi][0] == g_inner_obj[pi] ? "1" : "0"));
+        bind_object(pi, 0);
+      }
+      for (size_t pi = 0; pi < g_model.ports.size(); ++pi)
+      {
+        PortDesc& pd = g_model.ports[pi];
+        if (pd.sem != 2) continue;
+        for (int k = 0; k < R.n_clients; ++k)
+        {
+          try
+          {
+            void* obj = pd.outer(g_shell, R.client_names[static_cast<size_t>(k)]);
+            g_outer_obj[pi].push_back(obj);
+            rec("client_registered cl=" + std::to_string(k) + " fcstate=" + std::to_string(sim_ctr_get(CTR_FCSTATE)));
+            bind_object(pi, g_outer_obj[pi].size() - 1);
+          }
+          catch (const std::exception& e)
+          {
+            rec("client_register_failed cl=" + std::to_string(k) + " fcstate=" + std::to_string(sim_ctr_get(CTR_FCSTATE)) + " what=" + sanitize(e.what()));
+          }
+        }
+        std::string ids;
+        for (auto& s : g_model.shell.client_ids(g_shell, static_cast<int>(pi))) ids += (ids.empty() ? "" : ",") + pct_encode(s);
+        rec("client_ids_setup port=" + std::to_string(pi) + " ids=" + (ids.empty() ? "-" : ids));
+      }
+    }
     // ---- outer port objects, registration of multi-client clients
-    for (size_t pi = 0; pi < g_model.ports.size(); ++pi)
+    for (size_t pi = 0; !R.setuporder && pi < g_model.ports.size(); ++pi)
     {
       PortDesc& pd = g_model.ports[pi];
       if (pd.sem == 3) continue;
@@ -921,7 +992,7 @@ static void execute_run(int out_fd)
         for (size_t k = 0; k < g_outer_obj[pi].size(); ++k) g_outer_obj[pi][k] = pd.make_user();
       }
     }
-    for (size_t ei = 0; ei < g_model.events.size(); ++ei)
+    for (size_t ei = 0; !R.setuporder && ei < g_model.events.size(); ++ei)
     {
       EventDesc& e = g_model.events[ei];
       PortDesc& pd = g_model.ports[static_cast<size_t>(e.port)];
@@ -976,7 +1047,6 @@ static void execute_run(int out_fd)
     }
 
     // ---- final construction
-    static dzn::meta parent_meta{"parent", "Parent", nullptr, {}, {}, {}};
     bool fc_ok = false;
     try
     {
@@ -1178,6 +1248,8 @@ static bool parse_run(const std::vector<std::string>& lines, Run& R)
     else if (kw == "TEMPLOC") is >> R.temploc;
     else if (kw == "HQUERY") is >> R.hquery;
     else if (kw == "REFETCH") is >> R.refetch;
+    else if (kw == "SETUPORDER") is >> R.setuporder;
+    else if (kw == "REENTRYFC") is >> R.reentryfc;
     else if (kw == "TASK")
     {
       TaskSpec t;
